@@ -146,3 +146,11 @@ META["C15"] = {
             "application after saturation, re-matching of all rules, a sentinel rewrite counting applications, and hooks with known failures. Held on the runs explored.",
     "note": "Trusted: the fingerprint covers node count, live classes, slots, symmetries (by enumeration through eq) and the equality matrix of tracked handles.",
 }
+
+META["C20"] = {
+    "technique": "replay-and-compare monitor: transcripts of concurrent thread replays (with noise threads) and of separate processes, with a schedule log of observed interleavings",
+    "design_ref": "DESIGN.md §4 C20",
+    "text": "Each history is replayed in fresh threads concurrently with unrelated e-graph work that interns unrelated symbols, and in separate processes (different ASLR layout and interner hash seeds); "
+            "complete transcripts including dump output must be identical. The evidence reports how many thread switches and distinct schedule prefixes were actually observed. Held on the replays explored.",
+    "note": "Trusted: transcript rendering; the OS scheduler decides interleavings (measured, not assumed).",
+}
